@@ -65,6 +65,13 @@ theorem upd_other {α : Type} (f : Nat → α) (i j : Nat) (v : α) (h : j ≠ i
 @[simp] theorem b2n_true : b2n true = 1 := rfl
 @[simp] theorem b2n_false : b2n false = 0 := rfl
 
+@[simp] theorem fst_ne1 : (FSt.counted != FSt.forgotten) = true := by decide
+@[simp] theorem fst_ne2 : (FSt.waiting != FSt.forgotten) = true := by decide
+@[simp] theorem fst_ne3 : (FSt.forgotten != FSt.forgotten) = false := by decide
+@[simp] theorem fst_eq1 : (FSt.waiting == FSt.counted) = false := by decide
+@[simp] theorem fst_eq2 : (FSt.forgotten == FSt.counted) = false := by decide
+@[simp] theorem fst_eq3 : (FSt.counted == FSt.counted) = true := by decide
+
 -- ---------------------------------------------------------------- `decided`
 
 theorem decided_pc (q : Req) (e : ErrKind) (c : Bool) :
@@ -199,8 +206,31 @@ theorem inv_cancel {s s' : State} {c} (hi : Inv s) (hs : stepCancel s c = some s
     exact canceled_set x _ hcs rfl (by simp) hx
   next => simp at hs
 
+theorem stepDelete_spec (s : State) (c : CfgId) (k : Key) :
+    stepDelete s c k =
+      match s.cfgs[c]? with
+      | some cs =>
+        if cs.canceled then
+          some { s with pool := poolDelete s.pool k, cfgs := s.cfgs.set c { cs with held := cs.held.erase k } }
+        else none
+      | none => none := by
+  unfold stepDelete
+  cases s.cfgs[c]? with
+  | none => rfl
+  | some cs =>
+    simp only []
+    cases hcanc : cs.canceled with
+    | false => simp
+    | true =>
+      simp only [if_true]
+      cases hp : s.pool k with
+      | none => simp [poolDelete, hp]
+      | some v =>
+        obtain ⟨o, n⟩ := v
+        by_cases hn : n ≤ 1 <;> simp [poolDelete, hp, hn]
+
 theorem inv_delete {s s' : State} {c k} (hi : Inv s) (hs : stepDelete s c k = some s') : Inv s' := by
-  unfold stepDelete at hs
+  rw [stepDelete_spec] at hs
   split at hs
   next cs hcs =>
     split at hs
@@ -534,5 +564,191 @@ theorem inv_after {s s' : State} {r} (hi : Inv s) (hs : stepAfter s r = some s')
           simp [hpc, hk, aboutToCountW, failedAttemptsW, Pc.owesCountOn, b2n] at h2 h3 ⊢; omega
     all_goals simp at hs
   next => simp at hs
+
+theorem spawnOk_iff {q : Req} {h : HostId} {e : Fail} :
+    spawnOk q h e = true ↔ e.st = .counted ∧ e.host = h ∧ e.cfg = q.cfg := by
+  simp [spawnOk, and_assoc]
+
+theorem inv_spawn {s s' : State} {r i} (hi : Inv s) (hs : stepSpawn s r i = some s') : Inv s' := by
+  unfold stepSpawn at hs
+  split at hs
+  next q e hq he =>
+    split at hs
+    next h hpc =>
+      -- countFailure called from inside reverseProxy (bad status): back to `sending`
+      split at hs
+      next hok =>
+        obtain ⟨hst, hhost, hcfg⟩ := spawnOk_iff.mp hok
+        simp at hs; subst hs
+        refine ⟨?_, ?_, ?_, ?_, ?_, ?_, ?_, ?_⟩
+        · intro o
+          have h1 := hi.inflight_eq o
+          have h2 := total_set (inFlightW o) s.reqs r { q with pc := .sending h } q hq
+          simp only [sendingCount] at h1 ⊢
+          simp [hpc, inFlightW, Pc.inFlightOn] at h2 ⊢; omega
+        · intro o
+          have h1 := hi.fails_eq o
+          have h2 := total_set (pendingW o) s.log i { e with st := .waiting } e he
+          simp only [pendingForgetters] at h1 ⊢
+          simp [pendingW, hst] at h2 ⊢; omega
+        · intro o c
+          have h1 := hi.counted_eq o c
+          have h2 := total_set (spawnerW o c) s.reqs r { q with pc := .sending h } q hq
+          have h3 := total_set (countedW o c) s.log i { e with st := .waiting } e he
+          simp only [countedNotSpawned, spawners] at h1 ⊢
+          simp [hpc, spawnerW, countedW, Pc.spawningOn, hst, hhost, hcfg] at h2 h3 ⊢; omega
+        · intro e' he' hf
+          rcases mem_set_cases he' with hm | hm
+          · exact hi.forgotten_due e' hm hf
+          · subst hm; simp at hf
+        · intro e' he'
+          rcases mem_set_cases he' with hm | hm
+          · exact hi.entry_ok e' hm
+          · subst hm; exact hi.entry_ok e (mem_of_get he)
+        · intro q' hq'
+          rcases mem_set_cases hq' with hm | hm
+          · exact hi.req_ok q' hm
+          · subst hm
+            have := hi.req_ok q (mem_of_get hq)
+            simp [hpc, Pc.inFlight] at this ⊢; omega
+        · intro o
+          have h1 := hi.attempts_eq o
+          have h2 := total_set (aboutToCountW o) s.reqs r { q with pc := .sending h } q hq
+          have h3 := total_set (failedAttemptsW o) s.reqs r { q with pc := .sending h } q hq
+          have h4 := total_set (countedAttemptW o) s.log i { e with st := .waiting } e he
+          simp only [countedAttempts, aboutToCount, failedAttempts] at h1 ⊢
+          simp [hpc, aboutToCountW, failedAttemptsW, countedAttemptW, Pc.owesCountOn] at h2 h3 h4 ⊢; omega
+        · intro e' he' out hsrc
+          rcases mem_set_cases he' with hm | hm
+          · exact hi.src_countable e' hm out hsrc
+          · subst hm; exact hi.src_countable e (mem_of_get he) out hsrc
+      next => simp at hs
+    next h hpc =>
+      -- countFailure called after a failed attempt: on to tryAgain
+      split at hs
+      next hok =>
+        obtain ⟨hst, hhost, hcfg⟩ := spawnOk_iff.mp hok
+        simp at hs; subst hs
+        refine ⟨?_, ?_, ?_, ?_, ?_, ?_, ?_, ?_⟩
+        · intro o
+          have h1 := hi.inflight_eq o
+          have h2 := total_set (inFlightW o) s.reqs r (q.decided q.lastErr (canceled s q.cfg)) q hq
+          simp only [sendingCount] at h1 ⊢
+          simp only [decided_inFlightW] at h2
+          simp [hpc, inFlightW, Pc.inFlightOn] at h2 ⊢; omega
+        · intro o
+          have h1 := hi.fails_eq o
+          have h2 := total_set (pendingW o) s.log i { e with st := .waiting } e he
+          simp only [pendingForgetters] at h1 ⊢
+          simp [pendingW, hst] at h2 ⊢; omega
+        · intro o c
+          have h1 := hi.counted_eq o c
+          have h2 := total_set (spawnerW o c) s.reqs r (q.decided q.lastErr (canceled s q.cfg)) q hq
+          have h3 := total_set (countedW o c) s.log i { e with st := .waiting } e he
+          simp only [countedNotSpawned, spawners] at h1 ⊢
+          simp only [decided_spawnerW] at h2
+          simp [hpc, spawnerW, countedW, Pc.spawningOn, hst, hhost, hcfg] at h2 h3 ⊢; omega
+        · intro e' he' hf
+          rcases mem_set_cases he' with hm | hm
+          · exact hi.forgotten_due e' hm hf
+          · subst hm; simp at hf
+        · intro e' he'
+          rcases mem_set_cases he' with hm | hm
+          · exact hi.entry_ok e' hm
+          · subst hm; exact hi.entry_ok e (mem_of_get he)
+        · intro q' hq'
+          rcases mem_set_cases hq' with hm | hm
+          · exact hi.req_ok q' hm
+          · subst hm
+            have := hi.req_ok q (mem_of_get hq)
+            simp only [decided_incs, decided_hist, decided_inFlight]
+            simp [hpc, Pc.inFlight] at this ⊢; omega
+        · intro o
+          have h1 := hi.attempts_eq o
+          have h2 := total_set (aboutToCountW o) s.reqs r (q.decided q.lastErr (canceled s q.cfg)) q hq
+          have h3 := total_set (failedAttemptsW o) s.reqs r (q.decided q.lastErr (canceled s q.cfg)) q hq
+          have h4 := total_set (countedAttemptW o) s.log i { e with st := .waiting } e he
+          simp only [countedAttempts, aboutToCount, failedAttempts] at h1 ⊢
+          simp only [decided_aboutToCountW, decided_failedAttemptsW] at h2 h3
+          simp [hpc, aboutToCountW, countedAttemptW, Pc.owesCountOn] at h2 h3 h4 ⊢; omega
+        · intro e' he' out hsrc
+          rcases mem_set_cases he' with hm | hm
+          · exact hi.src_countable e' hm out hsrc
+          · subst hm; exact hi.src_countable e (mem_of_get he) out hsrc
+      next => simp at hs
+    all_goals simp at hs
+  next => simp at hs
+
+theorem forgetOk_iff {s : State} {e : Fail} :
+    forgetOk s e = true ↔ e.st = .waiting ∧ (e.exp ≤ s.now ∨ canceled s e.cfg = true) := by
+  simp [forgetOk]
+
+theorem inv_forget {s s' : State} {i} (hi : Inv s) (hs : stepForget s i = some s') : Inv s' := by
+  unfold stepForget at hs
+  split at hs
+  next e he =>
+    split at hs
+    next hok =>
+      obtain ⟨hst, hdue⟩ := forgetOk_iff.mp hok
+      simp at hs; subst hs
+      refine ⟨hi.inflight_eq, ?_, ?_, ?_, ?_, hi.req_ok, ?_, ?_⟩
+      · intro o
+        have h1 := hi.fails_eq o
+        have h2 := total_set (pendingW o) s.log i { e with st := .forgotten } e he
+        simp only [pendingForgetters] at h1 ⊢
+        by_cases ho : o = e.host
+        · subst ho; simp [pendingW, hst] at h2 ⊢; omega
+        · have hb : (e.host == o) = false := by simpa using Ne.symm ho
+          simp [pendingW, hst, upd_other _ _ _ _ ho, hb] at h2 ⊢; omega
+      · intro o c
+        have h1 := hi.counted_eq o c
+        have h3 := total_set (countedW o c) s.log i { e with st := .forgotten } e he
+        simp only [countedNotSpawned, spawners] at h1 ⊢
+        simp [countedW, hst] at h3 ⊢; omega
+      · intro e' he' hf
+        rcases mem_set_cases he' with hm | hm
+        · exact hi.forgotten_due e' hm hf
+        · subst hm; exact hdue
+      · intro e' he'
+        rcases mem_set_cases he' with hm | hm
+        · exact hi.entry_ok e' hm
+        · subst hm; exact hi.entry_ok e (mem_of_get he)
+      · intro o
+        have h1 := hi.attempts_eq o
+        have h4 := total_set (countedAttemptW o) s.log i { e with st := .forgotten } e he
+        simp only [countedAttempts, aboutToCount, failedAttempts] at h1 ⊢
+        simp [countedAttemptW] at h4 ⊢; omega
+      · intro e' he' out hsrc
+        rcases mem_set_cases he' with hm | hm
+        · exact hi.src_countable e' hm out hsrc
+        · subst hm; exact hi.src_countable e (mem_of_get he) out hsrc
+    next => simp at hs
+  next => simp at hs
+
+theorem inv_step {s s' : State} (a : Action) (hi : Inv s) (hs : step s a = some s') : Inv s' := by
+  cases a with
+  | newCfg p => simp [step] at hs; subst hs; exact inv_newCfg p hi
+  | store c k => exact inv_store hi hs
+  | cancel c => exact inv_cancel hi hs
+  | delete c k => exact inv_delete hi hs
+  | newReq c get => exact inv_newReq hi hs
+  | dispatch r h => exact inv_dispatch hi hs
+  | noUpstream r => exact inv_noUpstream hi hs
+  | strike r => exact inv_strike hi hs
+  | spawn r i => exact inv_spawn hi hs
+  | finish r out => exact inv_finish hi hs
+  | after r => exact inv_after hi hs
+  | forget i => exact inv_forget hi hs
+  | tick => simp [step] at hs; subst hs; exact inv_tick hi
+
+theorem inv_reachable {s : State} (h : Reachable s) : Inv s := by
+  induction h with
+  | init => exact inv_init
+  | step a _ hs ih => exact inv_step a ih hs
+
+theorem reachableM_reachable {s : State} (h : ReachableM s) : Reachable s := by
+  induction h with
+  | init => exact Reachable.init
+  | step a _ _ hs ih => exact Reachable.step a ih hs
 
 end CaddyModel.C09
